@@ -1,5 +1,6 @@
 import Lean.Data.Json
 import Verif.Model.Await
+import Verif.Model.Token
 import Verif.Gen.Errors
 open Lean
 -- DRIVER: await
@@ -101,7 +102,26 @@ def handleSeq (j : Json) : Except String Json := do
     else runSeq Verif.Gen.Errors.isRetryableError fire start items
   return Json.arr (outs.map (fun (s, o) => (outJson o).setObjVal! "start" (toJson s))).toArray
 
+/-- `{"m":"await","tokenOps":true,"ops":[["add",i]|["cancel"]|["query"]…],"raises":[i…]}` -/
+def handleToken (j : Json) : Except String Json := do
+  let ops ← j.getObjValAs? (Array Json) "ops"
+  let raising ← j.getObjValAs? (Array Nat) "raises"
+  let ops ← ops.toList.mapM (fun o => do
+    let k ← (← o.getArrVal? 0).getStr?
+    match k with
+    | "cancel" => pure Verif.Model.Token.Op.cancel
+    | "query" => pure Verif.Model.Token.Op.query
+    | "add" => pure (Verif.Model.Token.Op.add (← (← o.getArrVal? 1).getNat?))
+    | _ => throw s!"unknown token op {k}")
+  let (t, outs) := Verif.Model.Token.run (fun i => raising.contains i) {} ops
+  return Json.mkObj [
+    ("cancelled", Json.bool t.cancelled),
+    ("outs", Json.arr (outs.map (fun o => Json.mkObj [
+      ("invoked", toJson o.invoked), ("raised", Json.bool o.raised),
+      ("answer", match o.answer with | some b => Json.bool b | none => Json.null)])).toArray)]
+
 def handle (j : Json) : Except String Json := do
+  if (j.getObjVal? "tokenOps").isOk then return ← handleToken j
   if (j.getObjVal? "seq").isOk then return ← handleSeq j
   let P ← j.getObjValAs? Nat "P"
   if h : 0 < P then
